@@ -205,23 +205,36 @@ func (r *v1run) next() (v1.VerifEvent, bool) {
 func (r *v1run) await() (v1.VerifEvent, bool) {
 	for try := 0; try < 6; try++ {
 		synctest.Wait()
-		select {
-		case ev := <-r.evCh:
-			r.atGate = true
-			r.emit(sev{E: "S", Ev: ev.Ev, P: ev.Priority, Flag: ev.Flag, Actual: pairsU(ev.Actual), Tactic: pairsU(ev.Tactic),
-				Strategic: pairsU(ev.Strategic), Prios: ev.Priorities})
+		if ev, ok := r.poll(); ok {
 			return ev, true
-		default:
-			time.Sleep(2 * time.Nanosecond)
 		}
+		time.Sleep(2 * time.Nanosecond)
 	}
 	return v1.VerifEvent{}, false
+}
+
+// poll logs a scheduler event that is waiting to be delivered (the scheduler reached its next hook)
+func (r *v1run) poll() (v1.VerifEvent, bool) {
+	select {
+	case ev := <-r.evCh:
+		r.atGate = true
+		r.emit(sev{E: "S", Ev: ev.Ev, P: ev.Priority, Flag: ev.Flag, Actual: pairsU(ev.Actual), Tactic: pairsU(ev.Tactic),
+			Strategic: pairsU(ev.Strategic), Prios: ev.Priorities})
+		return ev, true
+	default:
+		return v1.VerifEvent{}, false
+	}
 }
 
 // observe is called after every step: control calls that returned, elements the discipline took from the inputs
 func (r *v1run) observe() {
 	heartbeat.Add(1)
 	synctest.Wait()
+	// a scheduler that was blocked in a channel operation (no event when it was last stepped) may have been released by the
+	// environment's last action and reached its next hook: log that step now, in its true position
+	if !r.atGate && !r.free.Load() {
+		r.poll()
+	}
 	// elements taken first: while gated, one scheduler step contains at most one channel operation, so a take and the
 	// return of a control call never fall into the same observation; while free-running the order inside one observation
 	// is unknown and this order is the one that can never raise a false C17 alarm
@@ -389,6 +402,9 @@ func (r *v1run) control(what string) bool {
 		r.stopReq = true
 		r.ctl("Stop", func() { r.d.Stop(); r.stopRet.Store(true) }, obs{})
 	case "cancel":
+		if r.cancelReq {
+			return true
+		}
 		r.cancelReq = true
 		r.emit(obs{E: "Cancel"})
 		r.cancel()
@@ -477,6 +493,7 @@ func (r *v1run) finish() {
 		r.next()
 		r.observe()
 	}
+	r.emit(obs{E: "Free"}) // end of the gated (fully logged) prefix validated by Trace_PrioV1
 	r.free.Store(true)
 	close(r.freeCh)
 	close(r.gate)
